@@ -95,7 +95,9 @@ theorem C13_Statement_false_deep : ¬ C13_Statement := C13_Statement_false
 /-- **C13, the main positive result** (after fixes 0addc5e, dfad397, 145359a, 9045646).  An internal error of
 `Program.process` has exactly one cause: the INCLUDE expansion ran out of its nesting budget (more than 64
 nested files; in the model the fuel of `expand`, in Python a RecursionError).  Every other stage -- symbol table,
-`resolve_symbols`, `translate`, the PCR size loop, address assignment, `fix_addresses`, the final symbol table --
+`resolve_symbols` (batch 4: with EQUs defined by expressions evaluated where they are used, `resolveF`), `translate`,
+the PCR size loop, the ORG check (batch 5, `orgOK`: a diagnostic), address assignment, `fix_addresses`, the evaluation
+of the EQU expressions on the final addresses (batch 4, `evalSyms`: `evalSyms_good`), the final symbol table --
 ends in a result or in a diagnostic on statements that came out of the parser, HOWEVER MANY there are.
 (Before fix 9045646 a second cause existed: more than 65536 statements, see `C13_witness`.) -/
 theorem assemble_internal_only_from_expand_fuel (fs : Files) (lines : List Str)
@@ -302,10 +304,12 @@ theorem C13_b3_label_offset_ok :
   ⟨checkProgram_sound (by decide +kernel) [], checkProgram_sound (by decide +kernel) []⟩
 
 /-- **left `op` right in the written order**: `5-L` is 5 minus the address (reduced modulo 65536), `$4000/L` divides BY the
-address, `0/L` is 0, `3*L` as a label offset; `5-L` as a PCR target -/
-theorem C13_b3_order_ok :
+address, `0/L` is 0, `3*L` as a label offset; `5-L` as a PCR target.
+STATEMENT CHANGED in batch 4 (was `C13_b3_order_ok`, last image `30 8C DD`): a PCR operand `number - label` now always
+takes the 16-bit form (`exprForces`, third disjunct), so `LEAX 5-L,PCR` is `30 8D FF DC` (target `$FFF5`, from `$0019`). -/
+theorem C13_b3_order_ok_fixed :
     (∃ a, assemble [] (prog [" ORG $10\n", "L FDB 5-L\n", " LDX #$4000/L\n", " LEAX 5-L,PCR\n"]) = .ok a ∧
-      imagesAre [some [], some [0xFF, 0xF5], some [0x8E, 0x04, 0x00], some [0x30, 0x8C, 0xDD]] a = true) ∧
+      imagesAre [some [], some [0xFF, 0xF5], some [0x8E, 0x04, 0x00], some [0x30, 0x8D, 0xFF, 0xDC]] a = true) ∧
     (∃ a, assemble [] (prog [" ORG $10\n", "L LDX #0/L\n", " LDA 3*L,X\n"]) = .ok a ∧
       imagesAre [some [], some [0x8E, 0x00, 0x00], some [0xA6, 0x89, 0x00, 0x30]] a = true) :=
   ⟨checkProgram_sound (by decide +kernel) [], checkProgram_sound (by decide +kernel) []⟩
@@ -324,6 +328,42 @@ theorem C13_b3_diag (fs : Files) :
    diagProgram_sound (by decide +kernel) fs, diagProgram_sound (by decide +kernel) fs,
    diagProgram_sound (by decide +kernel) fs, diagProgram_sound (by decide +kernel) fs,
    diagProgram_sound (by decide +kernel) fs⟩
+
+/-! ### batches 4 and 5: EQUs defined by expressions (`resolveF`, `evalSyms`), the ORG rule (`orgOK`)
+
+The NoInt* chain was re-proved on the model: `resolveF_good` (the invariant goes through every level of a chain of EQU
+expressions; running out of fuel — a definition cycle, Python's RecursionError — is `.error .other`, a diagnostic),
+`evalSyms_good` (an EQU expression is evaluated on the final addresses by `calculate_address_offset`, whose operands are
+table entries — labels of existing statements — or numbers: `addrOffset_good'`), and `orgOK` is a Boolean check whose
+failure is a diagnostic.  `assemble_internal_iff_expand` is unchanged.  The programs below exercise the new branches. -/
+
+/-- **the diagnostics of the new steps**: a definition cycle met by an operand (`resolve_symbols`) and met only by the
+symbol table pass (`evalSyms`); an EQU expression that divides a label by zero, that exceeds 65535, that names an
+undefined symbol; an ORG after the first byte -/
+theorem C13_b4_diag (fs : Files) :
+    assemble fs (prog ["A EQU B+1\n", "B EQU A+1\n", " LDA #A\n"]) = .diag ∧
+    assemble fs (prog ["A EQU B+1\n", "B EQU A+1\n", " NOP\n"]) = .diag ∧
+    assemble fs (prog ["X EQU L/0\n", "L NOP\n"]) = .diag ∧
+    assemble fs (prog ["X EQU L*L\n", " ORG $1000\n", "L NOP\n"]) = .diag ∧
+    assemble fs (prog ["X EQU Q+1\n", " NOP\n"]) = .diag ∧
+    assemble fs (prog [" NOP\n", " ORG $10\n"]) = .diag :=
+  ⟨diagProgram_sound (by decide +kernel) fs, diagProgram_sound (by decide +kernel) fs,
+   diagProgram_sound (by decide +kernel) fs, diagProgram_sound (by decide +kernel) fs,
+   diagProgram_sound (by decide +kernel) fs, diagProgram_sound (by decide +kernel) fs⟩
+
+/-- ... and accepted ones: an EQU of constants used as an operand (`N*3`), an EQU of a label expression below zero
+(`0-L` at address 5: reduced modulo 65536, listed as `$FFFB`), an ORG after an EQU (which lays nothing out) -/
+theorem C13_b4_ok :
+    (∃ a, assemble [] (prog ["N EQU 2\n", "X EQU N*3\n", " LDA #X\n"]) = .ok a ∧
+      (imagesAre [some [], some [], some [0x86, 0x06]] a &&
+        symtabLines a.symtab == some (prog ["$0002 N", "$0006 X"])) = true) ∧
+    (∃ a, assemble [] (prog ["X EQU 0-L\n", " ORG 5\n", "L NOP\n"]) = .ok a ∧
+      (imagesAre [some [], some [], some [0x12]] a &&
+        symtabLines a.symtab == some (prog ["$FFFB X", "$05   L"])) = true) ∧
+    (∃ a, assemble [] (prog ["L EQU 5\n", " ORG $10\n", " NOP\n"]) = .ok a ∧
+      (imagesAre [some [], some [], some [0x12]] a && symtabLines a.symtab == some (prog ["$0005 L"])) = true) :=
+  ⟨checkProgram_sound (by decide +kernel) [], checkProgram_sound (by decide +kernel) [],
+   checkProgram_sound (by decide +kernel) []⟩
 
 /-- What holds of C13.  (1)-(4): the PCR loop and the whole assembly never run out of fuel, and parsing fails
 only with a diagnostic.  (5): an internal error comes from the nesting budget of INCLUDE and from nothing else.
